@@ -1,7 +1,7 @@
 (* Executable model of boltons.funcutils.update_wrapper / wraps and of the
    parts of FunctionBuilder they use, AS WRITTEN (after the fix: commits
    972310d add_arg, a93312c __doc__, b766f76 call name, 5af02af annotations,
-   6831507 copied __signature__, ec9ad8a non-identifier __name__):
+   6831507 copied __signature__, ec9ad8a + d49e931 non-identifier __name__):
    same fields (args list, positional defaults tuple re-attached from the end,
    kwonlydefaults dict by name, annotations dict by name), same control flow.
 
